@@ -489,6 +489,8 @@ def _ceq(a, b):
 
 def _digit_val(c):
     if is_sym(c):
+        if getattr(_ex(), "concretize_digits", False):
+            return z3.RealVal(_ex().concretize_int(c - 48, 0, 9, "digit"))
         return z3.ToReal(c - 48)
     return z3.RealVal(c - 48)
 
@@ -529,6 +531,8 @@ def float_of_symstr(s):
     if kinds[k] == "s":
         c = chars[k]
         neg = (c == 45) if is_sym(c) else (c == 45)
+        if is_sym(c) and getattr(ex, "concretize_digits", False):
+            neg = br(c == 45)
         k += 1
     mant = z3.RealVal(0)
     ndig = 0
@@ -587,11 +591,15 @@ def float_of_symstr(s):
     scale = Fraction(10) ** (exp10 - fracdig)
     val = mant * core.qval(scale)
     if neg is not None:
-        if is_sym(chars[i if kinds[i] == "s" else i]) and not isinstance(neg, bool):
+        if not isinstance(neg, bool):
             val = z3.If(neg, -val, val)
         elif neg:
             val = -val
-    return core.SymReal(z3.simplify(val))
+    val = z3.simplify(val)
+    if z3.is_rational_value(val):
+        # every character of the numeral is fixed on this path: behave as the real float()
+        return float(Fraction(val.numerator_as_long(), val.denominator_as_long()))
+    return core.SymReal(val)
 
 
 def _hexval(c):
